@@ -391,6 +391,16 @@ func (x *execution) onEnter(name string) {
 				if d.inner == nil && !d.released && d.spec.Outcome != oCondFalse && rs != scheduler.StatusSkipped {
 					ok = false
 				}
+				if d.inner != nil && (rs == scheduler.StatusDone || (rs == scheduler.StatusError && d.real.AllowFailure)) {
+					// an included pipeline in the don't-care region is not tracked by the model: it has finished when
+					// the scheduler says so and none of its tasks is in flight any more
+					ok = true
+					for nm := range x.parked {
+						if strings.HasPrefix(nm, d.full+"/") {
+							ok = false
+						}
+					}
+				}
 				if !ok {
 					x.violate("C01", "start-before-dependency-finished", fmt.Sprintf("%s entered the runner while its dependency %s had not finished (real status %s)", name, d.full, statusName(rs)))
 				}
